@@ -27,9 +27,9 @@ import time
 from . import core
 
 RAFT_GO = "raftexample/raft.go"
-F4_EXPECTED = ["saveSnap", "wal.Save", "ApplySnapshot", "publishSnapshot", "raftStorage.Append", "transport.Send",
+F4_EXPECTED = ["saveSnap", "wal.Save", "ApplySnapshot", "wal.Sync", "publishSnapshot", "raftStorage.Append", "transport.Send",
                "publishEntries", "maybeTriggerSnapshot", "Advance"]
-F4_CALLS = [("saveSnap", r"rc\.saveSnap\("), ("wal.Save", r"rc\.wal\.Save\("), ("ApplySnapshot", r"rc\.raftStorage\.ApplySnapshot\("),
+F4_CALLS = [("saveSnap", r"rc\.saveSnap\("), ("wal.Save", r"rc\.wal\.Save\("), ("ApplySnapshot", r"rc\.raftStorage\.ApplySnapshot\("), ("wal.Sync", r"rc\.wal\.Sync\("),
             ("publishSnapshot", r"rc\.publishSnapshot\("), ("raftStorage.Append", r"rc\.raftStorage\.Append\("),
             ("transport.Send", r"rc\.transport\.Send\("), ("publishEntries", r"rc\.publishEntries\("),
             ("maybeTriggerSnapshot", r"rc\.maybeTriggerSnapshot\("), ("Advance", r"rc\.Node\.Advance\(")]
@@ -115,7 +115,7 @@ def fact_f4(R, broken_is_violation=True):
     order = [n for _, n in found]
     R.extra["F4_order"] = order
     exact = order == F4_EXPECTED
-    R.oblige("F4a: Ready arm order = saveSnap? -> wal.Save -> ApplySnapshot/publishSnapshot -> raftStorage.Append -> transport.Send -> "
+    R.oblige("F4a: Ready arm order = saveSnap? -> wal.Save -> ApplySnapshot/wal.Sync/publishSnapshot -> raftStorage.Append -> transport.Send -> "
              "publishEntries -> maybeTriggerSnapshot -> Advance (extracted from %s)" % RAFT_GO, "fact", exact, " -> ".join(order))
 
     def first(n):
